@@ -10,10 +10,7 @@
 
 // Here lives all of the operations on Duration.
 
-use crate::{
-    NANOSECONDS_PER_CENTURY, NANOSECONDS_PER_MICROSECOND, NANOSECONDS_PER_MILLISECOND,
-    NANOSECONDS_PER_SECOND,
-};
+use crate::{NANOSECONDS_PER_MICROSECOND, NANOSECONDS_PER_MILLISECOND, NANOSECONDS_PER_SECOND};
 
 use super::{Duration, Freq, Frequencies, TimeUnits, Unit};
 
@@ -281,26 +278,7 @@ impl Neg for Duration {
 
     #[must_use]
     fn neg(self) -> Self::Output {
-        if self == Self::MIN {
-            Self::MAX
-        } else if self == Self::MAX {
-            Self::MIN
-        } else {
-            match NANOSECONDS_PER_CENTURY.checked_sub(self.nanoseconds) {
-                Some(nanoseconds) => {
-                    // yay
-                    Self::from_parts(-self.centuries - 1, nanoseconds)
-                }
-                None => {
-                    if self > Duration::ZERO {
-                        let dur_to_max = Self::MAX - self;
-                        Self::MIN + dur_to_max
-                    } else {
-                        let dur_to_min = Self::MIN + self;
-                        Self::MAX - dur_to_min
-                    }
-                }
-            }
-        }
+        // The negated total always fits an i128; MIN maps to MAX by saturation and MAX to MIN exactly.
+        Self::from_total_nanoseconds(-self.total_nanoseconds())
     }
 }
